@@ -266,6 +266,9 @@ c.site_assert("HTTPConnectionPool._put_conn",
 c.tag("C01", "lease-balance:response-holds-the-only-outstanding-lease", "lease-balance:no-lease-outstanding-after-an-exception",
       "no-raw-socket-ssl-httpclient-error", "put-only-what-was-checked-out", "returns-response")
 c.tag("C04", "attempts<=1+total", "sends-monotone", "no-resend-of-non-idempotent-after-it-may-have-reached-the-server")
+# C02 "no lost slot": the same lease accounting (a slot leaked on any sequential path is lost to every thread)
+c.tag("C02", "lease-balance:response-holds-the-only-outstanding-lease", "lease-balance:no-lease-outstanding-after-an-exception", "put-only-what-was-checked-out")
+c.props.add("C02")
 
 # every recursion (retry after error, redirect, status retry) carries the caller's settings on unchanged
 c.site_old = {"in_redirect": "redirect", "in_assert_same_host": "assert_same_host", "in_timeout": "timeout", "in_pool_timeout": "pool_timeout",
